@@ -787,6 +787,14 @@ Proof.
   - rewrite (tp_equiv_pkts _ _ M), (outcomes_partition R), <- !app_assoc. cbn [app]. reflexivity.
 Qed.
 
+Theorem wire_conserves_uids loss t0 acts w tr :
+  wire_run loss (wire0 t0) acts = Some (w, tr) ->
+  Permutation (map uid (map snd (arrivals tr)))
+              (map uid (map snd (tdeliv tr)) ++ map uid (map snd (tlost tr)) ++ map uid (wheld w)).
+Proof.
+  intros H. rewrite <- !map_app. apply Permutation_map. exact (wire_conserves _ _ _ _ _ H).
+Qed.
+
 (* every delivered packet IS a packet put in (the same record, all header fields), at an earlier or
    equal position-instant *)
 Theorem wire_delivers_what_was_put loss t0 acts w tr :
